@@ -44,7 +44,7 @@ type Peer struct {
 	EmptyHeaders bool  // answer getheaders with an empty headers message
 	Silent       bool  // answer nothing after the handshake (pings too)
 	LieCFFrom    int32 // >0: filter hashes at heights >= this are falsified
-	LieCFKind    int   // how: see fhash
+	LieCFKind    string // how: see FHash
 	LieCkptFrom  int32 // >0: cfcheckpt entries at heights >= this are falsified
 	NoFilters    bool  // do not answer getcfilters
 	NoBlocks     bool  // do not answer getdata(block)
@@ -53,7 +53,15 @@ type Peer struct {
 	Recv       []string
 	Sessions   int
 	GotHeaders int // number of getheaders received
+	// Lied is set once the peer has put a falsified filter header, filter
+	// hash or filter checkpoint on the wire.
+	Lied bool
 }
+
+// HasLied reports whether the peer has served falsified filter data.
+func (p *Peer) HasLied() bool { p.mu.Lock(); defer p.mu.Unlock(); return p.Lied }
+
+func (p *Peer) noteLie() { p.mu.Lock(); p.Lied = true; p.mu.Unlock() }
 
 func (p *Peer) String() string { return p.Addr.String() }
 
@@ -130,12 +138,34 @@ func (p *Peer) SendHeaders(hdrs []*wire.BlockHeader) bool {
 	return p.Send(m)
 }
 
-// FHash is the filter hash this peer claims for n.
-func (p *Peer) FHash(n *kit.Node) chainhash.Hash {
+// lie reports whether this peer falsifies the filter of n, and how.
+func (p *Peer) lie(n *kit.Node) string {
 	if p.LieCFFrom > 0 && n.Height >= p.LieCFFrom {
-		return chainhash.HashH(append([]byte(fmt.Sprintf("lie-%d-", p.Idx)), n.FHash[:]...))
+		k := p.LieCFKind
+		if k == "" {
+			k = "inconsistent"
+		}
+		return k
 	}
-	return n.FHash
+	return ""
+}
+
+// FHash is the filter hash this peer claims for n.
+//
+// Lie kinds (LieCFKind): "omit" - a consistent lie, the served filter leaves
+// out an output script; "extra" - a consistent lie that cannot be refuted
+// from the block (superset filter); "inconsistent" - a made-up hash while the
+// true filter is served; "unserved" - a made-up hash and no filter at all.
+func (p *Peer) FHash(n *kit.Node) chainhash.Hash {
+	switch p.lie(n) {
+	case "":
+		return n.FHash
+	case "omit", "extra":
+		if _, h, ok := p.Sim.W.FakeFilter(n, p.lie(n)); ok {
+			return h
+		}
+	}
+	return chainhash.HashH(append([]byte(fmt.Sprintf("lie-%d-", p.Idx)), n.FHash[:]...))
 }
 
 // FHdrs returns this peer's claimed filter headers along path.
@@ -247,6 +277,13 @@ func (p *Peer) onPath(h *chainhash.Hash) (*kit.Node, bool) {
 	return n, true
 }
 
+// known resolves a hash to any block of the world (a real node keeps and
+// serves blocks of stale branches too).
+func (p *Peer) known(h *chainhash.Hash) (*kit.Node, bool) {
+	n, ok := p.Sim.W.ByHash[*h]
+	return n, ok
+}
+
 // HeadersFor computes the honest reply to a getheaders.
 func (p *Peer) HeadersFor(m *wire.MsgGetHeaders) []*wire.BlockHeader {
 	tip := p.View()
@@ -271,7 +308,6 @@ func (p *Peer) HeadersFor(m *wire.MsgGetHeaders) []*wire.BlockHeader {
 
 // Answer replies honestly (modulo the behaviour knobs) to a request.
 func (p *Peer) Answer(msg wire.Message) {
-	tip := p.View()
 	switch m := msg.(type) {
 	case *wire.MsgGetHeaders:
 		out := wire.NewMsgHeaders()
@@ -282,32 +318,41 @@ func (p *Peer) Answer(msg wire.Message) {
 		}
 		p.Send(out)
 	case *wire.MsgGetCFCheckpt:
-		stop, ok := p.onPath(&m.StopHash)
+		// Like a real node, compact-filter data is served for any block
+		// the peer knows, also off its current best chain.
+		stop, ok := p.known(&m.StopHash)
 		if !ok {
 			return
 		}
-		fh := p.FHdrs(tip.Path())
+		fh := p.FHdrs(stop.Path())
 		out := wire.NewMsgCFCheckpt(m.FilterType, &m.StopHash, int(stop.Height)/wire.CFCheckptInterval)
 		for i := int32(wire.CFCheckptInterval); i <= stop.Height; i += wire.CFCheckptInterval {
 			x := fh[i]
 			if p.LieCkptFrom > 0 && i >= p.LieCkptFrom {
 				x = chainhash.HashH(append([]byte(fmt.Sprintf("ckpt-lie-%d-", p.Idx)), x[:]...))
+				p.noteLie()
+			}
+			if p.LieCFFrom > 0 && i >= p.LieCFFrom {
+				p.noteLie()
 			}
 			_ = out.AddCFHeader(&x)
 		}
 		p.Send(out)
 	case *wire.MsgGetCFHeaders:
-		stop, ok := p.onPath(&m.StopHash)
+		stop, ok := p.known(&m.StopHash)
 		if !ok || int32(m.StartHeight) > stop.Height {
 			return
 		}
-		path := tip.Path()
+		path := stop.Path()
 		fh := p.FHdrs(path)
 		out := wire.NewMsgCFHeaders()
 		out.FilterType = m.FilterType
 		out.StopHash = m.StopHash
 		if m.StartHeight > 0 {
 			out.PrevFilterHeader = fh[m.StartHeight-1]
+		}
+		if p.LieCFFrom > 0 && stop.Height >= p.LieCFFrom {
+			p.noteLie()
 		}
 		for i := int32(m.StartHeight); i <= stop.Height; i++ {
 			x := p.FHash(path[i])
@@ -318,13 +363,15 @@ func (p *Peer) Answer(msg wire.Message) {
 		if p.NoFilters {
 			return
 		}
-		stop, ok := p.onPath(&m.StopHash)
+		stop, ok := p.known(&m.StopHash)
 		if !ok {
 			return
 		}
 		for i := int32(m.StartHeight); i <= stop.Height; i++ {
-			n := tip.Ancestor(i)
-			p.Send(wire.NewMsgCFilter(m.FilterType, &n.Hash, p.FilterBytes(n)))
+			n := stop.Ancestor(i)
+			if fb := p.FilterBytes(n); fb != nil {
+				p.Send(wire.NewMsgCFilter(m.FilterType, &n.Hash, fb))
+			}
 		}
 	case *wire.MsgGetData:
 		for _, iv := range m.InvList {
@@ -340,11 +387,15 @@ func (p *Peer) Answer(msg wire.Message) {
 	}
 }
 
-// FilterBytes is the serialized filter this peer serves for n. A peer lying
-// about the filter hash (LieCFFrom) serves, depending on LieCFKind:
-// 0: the true filter (which then does not hash to its advertised value);
-// 1: a filter that hashes to the advertised value?? impossible for a made-up
-//    hash, so kinds other than 0 are built by the C03 check through Override.
+// FilterBytes is the serialized filter this peer serves for n (nil: none).
 func (p *Peer) FilterBytes(n *kit.Node) []byte {
+	switch p.lie(n) {
+	case "omit", "extra":
+		if d, _, ok := p.Sim.W.FakeFilter(n, p.lie(n)); ok {
+			return d
+		}
+	case "unserved":
+		return nil
+	}
 	return n.FBytes
 }
